@@ -37,8 +37,9 @@
 EXTENDS RearCoded
 
 CONSTANTS BITS,     \* bits per byte
-          Fixed     \* TRUE: Lend::new_from with the start-at-the-end guard
-                    \* (the repaired code); FALSE: the code as pinned
+          Fixed     \* TRUE: Lend::new_from with the start-at-the-end guard and the
+                    \* early exit of its skipping loop (the repaired code);
+                    \* FALSE: the code as pinned
 
 VARIABLES data, ptrs, sorted, last
 dvars == <<data, ptrs, sorted, last>>
@@ -190,16 +191,21 @@ LendNext(st) ==
 \* Lend::new
 LendNew == [idx |-> 0, p |-> 0, buf |-> <<>>]
 
-RECURSIVE Advance(_, _)        \* `for _ in 0..offset { res.next(); }`
-AdvanceK(st, c, nx) == IF nx.r \in {"panic", "wild"} THEN [r |-> nx.r, st |-> st] ELSE Advance(nx.st, c - 1)
-Advance(st, c) == IF c = 0 THEN [r |-> "ok", st |-> st] ELSE AdvanceK(st, c, LendNext(st))
+RECURSIVE Advance(_, _, _)     \* `for _ in 0..offset { if res.next().is_none() { break; } }`
+\* calls = how many times next() was called (the pinned code has no break:
+\* it calls next() offset times whatever it returns)
+AdvanceK(st, c, n, nx) ==
+    IF nx.r \in {"panic", "wild"} THEN [r |-> nx.r, st |-> st, calls |-> n + 1]
+    ELSE IF Fixed /\ nx.r = "none" THEN [r |-> "ok", st |-> st, calls |-> n + 1]
+    ELSE Advance(nx.st, c - 1, n + 1)
+Advance(st, c, n) == IF c = 0 THEN [r |-> "ok", st |-> st, calls |-> n] ELSE AdvanceK(st, c, n, LendNext(st))
 
 \* Lend::new_from(from)
 LendNewFrom(from) ==
     IF Fixed /\ from = N
-    THEN [r |-> "ok", st |-> [idx |-> N, p |-> Len(data), buf |-> <<>>]]   \* nothing left to decode
-    ELSE IF from \div k >= Len(ptrs) THEN [r |-> "panic", st |-> LendNew]   \* pointers[block]
-    ELSE Advance([idx |-> (from \div k) * k, p |-> ptrs[(from \div k) + 1], buf |-> <<>>], from % k)
+    THEN [r |-> "ok", st |-> [idx |-> N, p |-> Len(data), buf |-> <<>>], calls |-> 0]   \* nothing left to decode
+    ELSE IF from \div k >= Len(ptrs) THEN [r |-> "panic", st |-> LendNew, calls |-> 0]   \* pointers[block]
+    ELSE Advance([idx |-> (from \div k) * k, p |-> ptrs[(from \div k) + 1], buf |-> <<>>], from % k, 0)
 
 \* drive a lender to its end: items and the len() sampled before every next()
 RECURSIVE Drive(_, _, _)
@@ -289,6 +295,9 @@ IterOutside(x)    == x.out = "panic" \/ (x.out = "ret" /\ x.res = <<>>)
 IterOK(Over) ==
     /\ \A j \in 0 .. (N + Over) : IF j <= N THEN IterInside(j, DIterFrom(j)) ELSE IterOutside(DIterFrom(j))
     /\ IterInside(0, DIntoLender)
+    \* positioning never calls next() more than once past the end of the list
+    \* (with a huge k the pinned code spins: offset calls that all return None)
+    /\ \A j \in 0 .. (N + Over) : LendNewFrom(j).calls <= N + 1
 
 \* index_of on every probe: the algorithm the flag selects, and the scan always
 IndexResOK(s, r) == r.out = "ret" /\ IndexOK(s, r.res)
